@@ -9,27 +9,29 @@ RULE = ("random well-formed schemas built as a tree and printed as SDL (schema b
         "exponents, plain/escaped/block strings, enums, lists, nested objects, null), interfaces, objects implementing "
         "them, unions, custom directives with several locations, optional Mutation/Subscription roots, wrapping depth "
         "0-4, and (since their repair) interfaces implementing interfaces, repeatable directives, deprecated "
-        "arguments/input fields, @specifiedBy, reason: null, directive/type name collisions; mode 'lossy' adds exactly one "
-        "construct outside the theorems' hypotheses (@oneOf, escapes or quotes in reasons, block-string default ending in "
-        "a quote, redeclared built-in, non-root object named Mutation/Subscription) or, 1 in 6, any of them; mode 'malformed' breaks one "
-        "well-formedness rule.  A case is distinct by the hash of its line and non-trivial when the schema is "
+        "arguments/input fields, @specifiedBy, reason: null, directive/type name collisions, non-root objects named "
+        "Mutation/Subscription; 1 in 8 documents has no schema definition (default root operation type names); mode 'lossy' adds exactly one "
+        "construct outside the theorems' hypotheses (@oneOf, escapes or quotes in reasons, redeclared built-in) or, 1 in 6, "
+        "any of them (block-string defaults ending in a quote or backslash are ordinary since PrintValue was repaired); mode 'malformed' breaks one "
+        "well-formedness rule.  Every 5th case is also run through the execution engine (full introspection query with "
+        "includeDeprecated as literal / default / variable, __type lookups, nested aliases).  A case is distinct by the hash of its line and non-trivial when the schema is "
         "well-formed (wf_schema) and has an interface, a type reference of wrapping depth >= 2 and a default value.")
 
 # lossy clause of coq/C17/Spec.v -> finding key.  Repaired findings (convert-drops-interface-implements,
 # convert-drops-repeatable, convert-drops-specified-by, convert-drops-inputvalue-deprecation,
-# deprecated-reason-null-panic, typeref-kind-name-collision) have no clause and no mapping any more:
-# a regression shows up as an unclassified spec failure, i.e. a VIOLATION.
+# deprecated-reason-null-panic, typeref-kind-name-collision, root-operation-invented) have no clause and no
+# mapping any more: a regression shows up as an unclassified spec failure, i.e. a VIOLATION.  default-block-string-reprint
+# is repaired too (in ast.Document.PrintValue, C05 rt-block-string-edge): the clause block-string-reprint that is left in
+# Spec.v only excludes contents no parsed document can carry (leading / trailing white space) and maps to no finding.
 KEYS = {
     "one-of": "oneof-not-introspected",
     "string-escapes": "introspection-raw-string-escapes",
-    "block-string-reprint": "default-block-string-reprint",
     "builtin-redeclared": "builtin-redeclared-duplicate",
-    "root-invented": "root-operation-invented",
 }
 # which excluded construct can explain a failure of which spec clause (Properties.v *_refuted)
 EXPLAINS = {
-    "roundtrip": ["one-of", "string-escapes", "block-string-reprint", "builtin-redeclared", "root-invented"],
-    "complete_exact": ["string-escapes", "block-string-reprint", "builtin-redeclared", "root-invented"],
+    "roundtrip": ["one-of", "string-escapes", "builtin-redeclared"],
+    "complete_exact": ["string-escapes", "builtin-redeclared"],
     "typeref_faithful": [],
     "generate_total": [],
 }
@@ -38,10 +40,8 @@ EXPLAINS = {
 def classify(case, detail):
     spec = detail.split(" ", 1)[0]
     if spec == "engine_introspection":
-        if " op=alias " in detail:
-            return "engine-introspection-nested-alias"
-        if " op=full-variable-true " in detail:
-            return "engine-include-deprecated-variable"
+        # engine-introspection-nested-alias and engine-include-deprecated-variable are repaired in /repo:
+        # no engine difference is a known finding any more
         return None
     m = re.search(r"violated=\[([^\]]*)\]", detail)
     if not m:
@@ -138,7 +138,7 @@ def run(chk):
             state[lst] = [(a, short(c), d[:600]) for (a, c, d) in state[lst]]
     vlib.conclude_differential(chk, state, more)
     chk.coverage["samples"] = samples
-    chk.coverage["finding_keys"] = sorted(set(KEYS.values()) | {"engine-introspection-nested-alias", "engine-include-deprecated-variable"})
+    chk.coverage["finding_keys"] = sorted(set(KEYS.values()))
 
 
 def replay(chk, path):
